@@ -21,6 +21,8 @@ IDENTITY = {
     "std::borrow::Borrow::borrow": (0, "same"),
     "std::borrow::ToOwned::to_owned": (0, "same"),
     "std::convert::Into::into": (0, "same"),
+    "std::hint::must_use": (0, "same"),       # what format!() wraps its result in
+    "std::convert::identity": (0, "same"),
     "std::convert::From::from": (0, "same"),
     "std::clone::Clone::clone": (0, "same"),
     "std::rc::Rc::<T>::new": (0, "same"),
